@@ -273,11 +273,12 @@ impl EPA {
                 pts2,
             ));
 
-            let dist1 = self.faces[0].normal.dot(&self.vertices[0].point.coords);
-            let dist2 = self.faces[1].normal.dot(&self.vertices[1].point.coords);
-
-            self.heap.push(FaceId::new(0, dist1)?);
-            self.heap.push(FaceId::new(1, dist2)?);
+            // The origin lies on the segment (that is why GJK stopped on a 1-dimensional simplex):
+            // both faces are at distance 0. Evaluating `normal · vertex` only yields rounding noise of
+            // arbitrary sign, which `FaceId::new` rejects (making the whole query fail) as soon as it
+            // exceeds its absolute tolerance. The 3D implementation pushes 0.0 too.
+            self.heap.push(FaceId::new(0, 0.0)?);
+            self.heap.push(FaceId::new(1, 0.0)?);
         }
 
         let mut niter = 0;
